@@ -395,3 +395,112 @@ def E7(m, R):
     ok = any(isinstance(n, ast.Assign) and norm(n.targets[0]) == '%s.%s' % (f.self_name, ro.TABLE) and norm(n.value) in ('{}', 'dict()') for n in f.body) or \
         any(isinstance(n, ast.Expr) and norm(n.value) == '%s.%s.clear()' % (f.self_name, ro.TABLE) for n in f.body)
     R.check(ok, f, f.node, 'clear_formatting leaves an empty table', construct='clear_formatting empties')
+
+
+# ----------------------------------------------------------------------------------------------------------------------
+def _is_marker(H, a, ref, depth=0):
+    """ref denotes a setting object that lives in some string's START / STOP list (or the iterator's active list)."""
+    ro = H.ro
+    if ref[0] in ('TUPLE', 'Imm'):
+        return False
+    root, path = ref
+    if root.startswith('Fresh:iterlist'):
+        return False
+    if path and path[-1] == '[*]' and len(path) >= 2 and path[-2] in (ro.START, ro.STOP):
+        return True
+    if path and path[-1] == '**':
+        return False
+    return False
+
+
+def _marker_list(H, a, ref, depth=0):
+    ro = H.ro
+    if ref[0] in ('TUPLE', 'Imm'):
+        return False
+    root, path = ref
+    if path and path[-1] in (ro.START, ro.STOP):
+        return True
+    if root.startswith('Fresh:iterlist') and not path:
+        return True
+    if is_fresh(ref) and not path and depth < 3:
+        els = a.elems.get(root, ())
+        return any(_is_marker(H, a, e) for e in els)
+    return False
+
+
+@rule('F8', 'identity-discipline: markers are matched by identity; value equality between two marker-provenance operands is allowed only at '
+            'the three declared sites', floor=4)
+def F8(m, R):
+    H = get_heap(m)
+    ro = m.roles
+    funcs = [f for f in m.funcs.values() if f.cls == 'AnsiString' or f.cls == ro.ITERATOR]
+    n = 0
+    for f in funcs:
+        if f.name in ('__eq__',):
+            continue       # documented value equality of two strings' settings
+        sites = [x for x in f.walk() if (isinstance(x, ast.Compare) and len(x.ops) == 1 and isinstance(x.ops[0], (ast.In, ast.NotIn, ast.Eq, ast.NotEq)))
+                 or (isinstance(x, ast.Call) and isinstance(x.func, ast.Attribute) and x.func.attr in ('index', 'remove', 'count') and len(x.args) == 1)]
+        if not sites:
+            continue
+        a = H.analyse(f.qual)
+        refs_of = {}
+        for refs, node in a.evaluated:
+            refs_of.setdefault(id(node), set()).update(refs)
+        for x in sites:
+            if isinstance(x, ast.Compare):
+                l, r = x.left, x.comparators[0]
+                op = x.ops[0]
+                lrefs, rrefs = refs_of.get(id(l), set()), refs_of.get(id(r), set())
+                if isinstance(op, (ast.In, ast.NotIn)):
+                    hit = any(_is_marker(H, a, e) for e in lrefs) and any(_marker_list(H, a, e) for e in rrefs)
+                    what = 'membership test `%s`' % short(x)
+                else:
+                    both_lists = any(_marker_list(H, a, e) for e in lrefs) and any(_marker_list(H, a, e) for e in rrefs)
+                    both_elems = any(_is_marker(H, a, e) for e in lrefs) and any(_is_marker(H, a, e) for e in rrefs)
+                    hit = both_lists or both_elems
+                    what = 'comparison `%s`' % short(x)
+            else:
+                lrefs = refs_of.get(id(x.args[0]), set())
+                rrefs = refs_of.get(id(x.func.value), set())
+                hit = any(_is_marker(H, a, e) for e in lrefs) and any(_marker_list(H, a, e) for e in rrefs)
+                what = 'list.%s `%s`' % (x.func.attr, short(x))
+            if not hit:
+                continue
+            n += 1
+            cons = '%s: %s' % (f.name, re.sub(r'\s+', ' ', norm(x))[:80])
+            # declared sites (DESIGN 2.4)
+            def roots(refs):
+                out = set()
+                for e in refs:
+                    if is_fresh(e) and not e[1]:
+                        out |= {y[0] for y in a.elems.get(e[0], ()) if y[0] not in ('TUPLE', 'Imm')}
+                        for (fr, attr), vals in a.fields.items():
+                            pass
+                    else:
+                        out.add(e[0])
+                return out
+            if f.name == '__iadd__' and isinstance(x, ast.Compare) and isinstance(x.ops[0], (ast.Eq, ast.NotEq)) and \
+                    'Self' in (roots(lrefs) | roots(rrefs)) and any(r0.startswith('Arg:') for r0 in roots(lrefs) | roots(rrefs)):
+                R.ok(f, x, 'declared seam merge: stop markers of the receiver are compared by value with start markers of the other operand', construct=cons)
+                continue
+            if f.name == 'to_str' and isinstance(x, ast.Compare) and isinstance(x.ops[0], (ast.Eq, ast.NotEq)) and \
+                    any(isinstance(p, (ast.ListComp, ast.If)) for p in _parents(x)) and 'dict' in norm(x):
+                R.ok(f, x, 'declared: the optimiser compares the rendered value of two effective states', construct=cons)
+                continue
+            R.viol(f, x, '%s matches a marker of this string against other markers by *value*: two equal settings that overlap are '
+                         'confused with each other (the wrong one is kept open / restarted)' % what, construct=cons)
+    # IDFIND helpers compare with `is`
+    A = m.cls('AnsiString')
+    for nme in ro.IDFIND:
+        f = A.methods.get(nme)
+        if f is None:
+            raise AnalysisError('anchor vanished: %s' % nme)
+        cmps = [x for x in f.walk() if isinstance(x, ast.Compare)]
+        ok = bool(cmps) and all(isinstance(c.ops[0], ast.Is) for c in cmps)
+        R.check(ok, f, cmps[0] if cmps else f.node, '%s matches by identity (`is`)' % nme,
+                '%s compares with %s: equal but distinct settings are taken for each other' % (nme, [type(c.ops[0]).__name__ for c in cmps]),
+                construct='%s identity' % nme)
+    # the iterator removes by identity
+    nx = m.fn('%s.__next__' % ro.ITERATOR)
+    uses = [x for x in nx.walk() if isinstance(x, ast.Call) and call_name(x) == ro.IDFIND1]
+    R.check(bool(uses), nx, uses[0] if uses else nx.node, 'the iterator finds the marker to stop by identity', construct='iterator identity')
